@@ -159,18 +159,58 @@ func hasSig(os []obs, sig string) bool {
 func flush() {
 	sigs := append([]string{}, forder...)
 	sort.Strings(sigs)
+	// When run.sh's -race pass reported a data race in the code under test, the parallel phases of this run
+	// worked on top of that race: an observation made there need not reproduce single-threaded. Such an
+	// observation is recorded, not reported, and the run is decided by the data-race violation (exit 1)
+	// instead of ending as an irreproducible finding (exit 3). Without a reported race nothing changes.
+	rp := os.Getenv("VERIF_RACE_PASS")
+	raceReported := strings.HasPrefix(rp, "race:")
+	if strings.HasPrefix(rp, "failed:1:") {
+		// the pass's second oracle fired before the detector did: a goroutine working on private objects got a
+		// result that differs from the single-threaded value
+		out, _ := os.ReadFile(strings.TrimPrefix(rp, "failed:1:"))
+		var lines []string
+		for _, l := range strings.Split(string(out), "\n") {
+			if strings.HasPrefix(l, "RESULT DIFFERS") && len(lines) < 5 {
+				lines = append(lines, l)
+			}
+		}
+		if len(lines) > 0 {
+			raceReported = true
+			r.Violation("C13|oracle=concurrent-result-differs-from-single-threaded-value",
+				"goroutines working on private objects computed results that differ from the values computed single-threaded (shared mutable state inside the code under test): "+strings.Join(lines, " | "),
+				map[string]interface{}{"kind": "race-pass", "output": lines})
+		}
+	}
+	var unstable []string
 	for _, s := range sigs {
 		c := *found[s]
 		what := c.Detail
 		if n := fcount[s]; n > 1 {
 			what += fmt.Sprintf(" [%d cases with this signature; the first in enumeration order is stored]", n)
 		}
-		r.ViolationConfirmed(s, what, c, func() string {
+		again := func() string {
 			if hasSig(rerun(c), s) {
 				return s
 			}
 			return ""
-		})
+		}
+		if raceReported {
+			ok := true
+			for i := 0; i < 5 && ok; i++ {
+				ok = again() == s
+			}
+			if !ok {
+				unstable = append(unstable, s)
+				continue
+			}
+			r.Violation(s, what, c)
+			continue
+		}
+		r.ViolationConfirmed(s, what, c, again)
+	}
+	if len(unstable) > 0 {
+		r.Set("observations_not_reproduced_single_threaded_while_a_data_race_is_reported", unstable)
 	}
 }
 
@@ -213,6 +253,10 @@ func main() {
 	}
 	tSetup := time.Now()
 	setupChain()
+	if os.Getenv("C13_RACE_PASS") == "1" {
+		runRacePass() // exits
+		return
+	}
 	if r.ReplayPath != "" {
 		replayMain()
 		return
@@ -247,6 +291,9 @@ func main() {
 		"offered to a fresh set and followed by the genuine part of that slot and all the others (bogus first, then genuine): AddPart must accept the exact genuine labelling, must reject every part whose bytes do not belong in slot i "+
 		"(in an unbalanced tree the path of leaf j is also the path of another index in a smaller tree, so SimpleProof.Verify alone accepts such relabellings — listed as information), and a complete set must yield the block's bytes; "+
 		"expected verdicts and roots come from an independent reference tree; the relabellings that keep the path valid are also tokens of the state graphs of (a). "+
+		"(race pass, run.sh RACEPASS) before the enumeration the same binary built with -race runs 8 goroutines x 12 fixed iterations of every hashing / encoding entry point of the property on private objects "+
+		"(part sets, AddPart, SimpleProof.Verify, simple tree, Commit / Evidence / ValidatorSet / Header / Block hashes, MakePartSet, block wire round trip, DeriveSha, ValidateBlock), each result also compared with its single-threaded value; "+
+		"a detector report becomes the violation C13|oracle=data-race|at=...; while one is reported, observations of the parallel phases that do not reproduce single-threaded are recorded, not reported. "+
 		"(b) E3: every single-field mutation (each header field over its boundary alternatives, tx add / remove / duplicate / swap / replace / every byte altered, commit height / round / id / every flag / address / "+
 		"timestamp / every signature byte / list edits, every evidence field and list edit) of every block of the family {height 1, height 2} x {0,1,3 txs} x {0,1,2 evidence} x {full, absent, nil-vote commit}, "+
 		"applied to the wire form, decoded with BlockFromProto and validated with BlockExecutor.ValidateBlock on a fresh executor and on one that validated the original "+
